@@ -11,7 +11,7 @@
      * LC(text, pos)        closed form (counting sets of indices);
      * the scanner below    inductive: one character at a time, carrying (line, col).
    Role (D):    Agree - both definitions coincide on every reachable state, i.e. on every text of at
-                most MaxLen characters over the classes {letter, tab, newline, non-ASCII, space}
+                most MaxLen characters over the classes {letter, tab, newline, non-ASCII, space, break-like}
                 and every position 0..Len(text).
    Role (M->C): every reachable state is exported with the predicted "line:col"; the harness
                 renders the class string to characters and compares with repr() of the real
@@ -20,7 +20,8 @@ EXTENDS Naturals, Sequences, FiniteSets, TLC, Json
 
 CONSTANT MaxLen
 
-Classes == {"l", "t", "n", "u", "s"}       \* letter, TAB, newline, non-ASCII character, space
+Classes == {"l", "t", "n", "u", "s", "f"}  \* letter, TAB, newline (LF), non-ASCII character, space, and "f": a character that some
+                                           \* libraries take for a line break (FF, VT, lone CR, NEL, U+2028, FS) - an ordinary character here
 
 (* ---- closed form ---- *)
 NewlinesBefore(text, pos) == {i \in 1..pos : text[i] = "n"}
